@@ -813,15 +813,54 @@ def run(index, rep, tier):
         for m in cls.methods.values():
             cfg = cfg_of(m)
             for n in cfg.nodes:
-                if n.kind == "test" and ("self." + dim) in norm(n.ast) and isinstance(n.ast, ast.Compare):
+                if n.kind == "test" and ("self." + dim) in norm(n.ast) and isinstance(n.ast, ast.Compare) and all(isinstance(o, (ast.Eq, ast.NotEq)) for o in n.ast.ops):
                     if raises_in_branch(cfg, n, "t") is not None or raises_in_branch(cfg, n, "f") is not None or _branch_calls_raiser(cfg, n):
                         checks.append((m, n))
         rcfg = cfg_of(pr)
         parse_nodes = [n for n in rcfg.nodes if any((call_name(c) or "").startswith("_parse_") for c in node_calls(n))]
         post = [c for c in checks if c[0].name == "_read" and any(rcfg.can_reach(p, lambda n, t=c[1]: n is t) is not None for p in parse_nodes)]
+        # a parse routine that itself ends with the comparison on every normal path discharges the obligation for its call
+        self_checking = set()
+        for m in cls.methods.values():
+            if not m.name.startswith("_parse_"):
+                continue
+            own = {t.id for mm, t in checks if mm is m}
+            if own:
+                mcfg = cfg_of(m)
+                if mcfg.must_pass(mcfg.entry, lambda n: n.id in own)[0]:
+                    self_checking.add(m.name)
+        parse_nodes = [n for n in parse_nodes if not all((call_name(c) or "") in self_checking for c in node_calls(n) if (call_name(c) or "").startswith("_parse_"))] or parse_nodes[:0]
+        if not parse_nodes:
+            rep.ob("R20.6", fn_where(pr), "declared %s is compared inside every parse routine (%s)" % (dim, sorted(self_checking)), True)
+            continue
         rep.check(bool(post), "R20.6", pr.qualname, "declared %s compared after parsing" % dim, fn_where(pr),
                   "PhylipReader._read compares the declared %s with what was read, on a raising path, after the data loop (%d comparisons in the class)" % (dim, len(checks)),
                   "PhylipReader stores the declared `%s` but _read never compares it with what was actually read after the data loop: a document whose rows are shorter than declared is returned as a ragged matrix that contradicts its own header" % dim)
+        # ... and in every mode: each parse call is followed, on every normal path to the return, by one of the comparisons
+        # (or by the head of the loop that holds it - a loop over zero rows has nothing to compare)
+        if post:
+            pmr = parent_map(pr.node)
+            passing = set()
+            for m, t in post:
+                passing.add(t.id)
+                cur = pmr.get(t.stmt)
+                while cur is not None and cur is not pr.node:
+                    if isinstance(cur, (ast.For, ast.While)):
+                        passing |= {n.id for n in rcfg.nodes if n.stmt is cur and n.kind in ("for", "forinit", "join")}
+                        cur = pmr.get(cur)
+                        continue
+                    if isinstance(cur, ast.If):
+                        break
+                    cur = pmr.get(cur)
+            # option attributes assigned only in __init__ keep their value during _read: repeated tests of them are correlated
+            stored_elsewhere = {w.attr for m in cls.methods.values() if m.name != "__init__" for w in writes_in(m.node) if w.kind in ("store", "augstore") and w.base is not None and norm(w.base) == "self"}
+            init = cls.methods.get("__init__")
+            rcfg.stable_attrs = {"self." + w.attr for w in writes_in(init.node) if w.kind == "store" and w.base is not None and norm(w.base) == "self" and w.attr not in stored_elsewhere} if init is not None else set()
+            for pnode in parse_nodes:
+                ok, w = rcfg.must_pass(pnode, lambda n: n.id in passing, edge_ok=rcfg.consistent_with(pnode))
+                rep.check(ok, "R20.6", pr.qualname, "declared %s not compared after `%s` on some path" % (dim, norm_stmt(pnode.stmt)[:50]), fn_where(pr, pnode.stmt),
+                          "every normal path from `%s` to the return passes a comparison with the declared %s" % (norm_stmt(pnode.stmt)[:40], dim),
+                          "PhylipReader._read can return after `%s` without comparing the declared `%s` with what was read (the comparison is skipped on some mode/flag combination): in that mode a document whose rows are shorter than declared comes back as a ragged matrix that contradicts its own header" % (norm_stmt(pnode.stmt)[:60], dim))
 
 
 def _branch_calls_raiser(cfg, n):
